@@ -9,7 +9,7 @@ VARIABLES l,        \* next trace line
           seen,     \* every term mentioned in any call since the index was created (superset of what is interned)
           big       \* exhaustion scenario: [count, extra]
 vars == <<l, b, cfg, seen, big>>
-Init == l = 1 /\ b = EmptyBag /\ cfg = [isset |-> TRUE, graph |-> FALSE, cap |-> 0] /\ seen = {} /\ big = [count |-> 0, extra |-> {}]
+Init == l = 1 /\ b = EmptyBag /\ cfg = [isset |-> TRUE, graph |-> FALSE, cap |-> 0, asds |-> FALSE] /\ seen = {} /\ big = [count |-> 0, extra |-> {}]
 
 Q == DOMAIN b
 NQs(s) == [i \in 1..Len(s) |-> NormQ(s[i])]
@@ -27,6 +27,8 @@ AddAll(bag, s, i) == IF i > Len(s) THEN bag ELSE AddAll(BagAdd(bag, s[i]), s, i 
 RECURSIVE OccIn(_, _)
 OccIn(t, x) == (IF t = x THEN 1 ELSE 0) + (IF t.k = "triple" THEN OccIn(t.s, x) + OccIn(t.p, x) + OccIn(t.o, x) ELSE 0)
 OccQ(q, x) == OccIn(q[1], x) + OccIn(q[2], x) + OccIn(q[3], x) + OccIn(q[4], x)
+RECURSIVE SumB(_)
+SumB(S) == IF S = {} THEN 0 ELSE LET q == CHOOSE q \in S : TRUE IN b[q] + SumB(S \ {q})
 RECURSIVE SumOcc(_, _)
 SumOcc(S, x) == IF S = {} THEN 0 ELSE LET q == CHOOSE q \in S : TRUE IN b[q] * OccQ(q, x) + SumOcc(S \ {q}, x)
 
@@ -35,7 +37,8 @@ Ok(e) ==
   CASE e.ev = "Reset"   -> TRUE
     [] e.ev = "Insert"  ->
          LET q == NormQ(e.q) IN
-         IF IsErr(e) THEN Justified(TermsOfQ(q)) /\ HasRows(e) /\ RowsBag(e) = b
+         IF IsErr(e) THEN (Justified(TermsOfQ(q)) \/ (cfg.asds /\ q[4] # DG)) /\ HasRows(e) /\ RowsBag(e) = b
+         ELSE IF cfg.asds /\ q[4] # DG THEN FALSE        \* a graph seen as a dataset has only a default graph
          ELSE IF cfg.isset THEN e.res.ok = (q \notin Q) /\ (HasRows(e) => RowsBag(e) = BagAdd(BagDel(b, {q}), q))
          ELSE HasRows(e) /\ RowsBag(e) = BagAdd(b, q)
     [] e.ev = "Remove"  ->
@@ -55,9 +58,13 @@ Ok(e) ==
     [] e.ev = "RetainMatching" -> ~IsErr(e) /\ RowsBag(e) = Restrict(b, Matching(e.ms))
     [] e.ev = "InsertAll" ->
          LET qs == NQs(e.qs) IN
-         IF IsErr(e) THEN /\ Justified(TermsOfQs(qs)) /\ cfg.isset
-                          /\ \E j \in 0..(Len(qs) - 1) : DOMAIN RowsBag(e) = Q \cup SeqToSet(Prefix(qs, j))
-                          /\ \A x \in DOMAIN RowsBag(e) : RowsBag(e)[x] = 1
+         IF IsErr(e) THEN
+              IF cfg.asds THEN \E j \in 0..(Len(qs) - 1) : /\ qs[j + 1][4] # DG /\ \A i \in 1..j : qs[i][4] = DG
+                                                            /\ RowsBag(e) = (IF cfg.isset THEN SetBag(Q \cup SeqToSet(Prefix(qs, j))) ELSE AddAll(b, Prefix(qs, j), 1))
+              ELSE /\ Justified(TermsOfQs(qs)) /\ cfg.isset
+                   /\ \E j \in 0..(Len(qs) - 1) : DOMAIN RowsBag(e) = Q \cup SeqToSet(Prefix(qs, j))
+                   /\ \A x \in DOMAIN RowsBag(e) : RowsBag(e)[x] = 1
+         ELSE IF cfg.asds /\ \E i \in 1..Len(qs) : qs[i][4] # DG THEN FALSE
          ELSE IF cfg.isset THEN e.res.ok = CountIns(qs, 1, Q).n /\ RowsBag(e) = SetBag(Q \cup SeqToSet(qs))
          ELSE RowsBag(e) = AddAll(b, qs, 1)
     [] e.ev = "RemoveAll" ->
@@ -76,6 +83,24 @@ Ok(e) ==
              exp == IF cfg.graph /\ e.which = "graph_names" THEN {} ELSE Projection(e.which, Q) IN
          /\ DOMAIN r = exp
          /\ \A x \in exp : r[x] >= 1 /\ r[x] <= SumOcc(Q, x)
+    \* ---- views (C11) ----
+    [] e.ev = "View" ->
+         LET r == BagOf([i \in 1..Len(e.rows) |-> <<Norm(e.rows[i][1]), Norm(e.rows[i][2]), Norm(e.rows[i][3])>>])
+             sel == {q \in Q : Matches(e.sel, q[4]) /\ Matches(e.ms[1], q[1]) /\ Matches(e.ms[2], q[2]) /\ Matches(e.ms[3], q[3])}
+             Tr(q) == <<q[1], q[2], q[3]>>
+             mult(t) == LET S == {q \in sel : Tr(q) = t} IN SumB(S)
+         IN /\ DOMAIN r = {Tr(q) : q \in sel}
+            /\ \A t \in DOMAIN r : r[t] >= 1 /\ r[t] <= mult(t)
+            /\ (cfg.isset /\ e.kind \in {"graph", "graph_mut"}) => \A t \in DOMAIN r : r[t] = 1
+    [] e.ev = "ViewTerms" ->
+         LET r == BagOf([i \in 1..Len(e.rows) |-> Norm(e.rows[i])])
+             selq == {x \in Q : Matches(e.sel, x[4])}
+             sel == {<<q[1], q[2], q[3], DG>> : q \in selq} IN
+         \* at least the terms of the view's triples; at most those of the selected quads (the union view forwards
+         \* to the dataset's enumeration, which also lists graph names: observed, not judged - see DESIGN C11 L)
+         /\ Projection(e.which, sel) \subseteq DOMAIN r
+         /\ DOMAIN r \subseteq Projection(e.which, selq)
+    [] e.ev = "RetainIn" -> ~IsErr(e) /\ RowsBag(e) = Restrict(b, {q \in Q : ~Matches(e.ms[4], q[4]) \/ MatchesQ(e.ms, q)})
     [] e.ev = "Panic" -> FALSE            \* the specification has no such action
     \* ---- 16-bit exhaustion scenario ----
     [] e.ev = "Bulk" -> ~IsErr(e) /\ e.res.ok = e.n /\ e.count = e.n
@@ -88,7 +113,7 @@ Ok(e) ==
 \* ---- state after the event (re-synchronised from the logged projection when there is one) ----
 PostB(e) ==
   CASE e.ev = "Reset" -> EmptyBag
-    [] e.ev \in {"Insert", "Remove", "RemoveMatching", "RetainMatching", "InsertAll", "RemoveAll", "FromSource"} ->
+    [] e.ev \in {"Insert", "Remove", "RemoveMatching", "RetainMatching", "RetainIn", "InsertAll", "RemoveAll", "FromSource"} ->
          IF HasRows(e) THEN RowsBag(e)
          ELSE IF e.ev = "Insert" THEN (IF IsErr(e) THEN b ELSE BagAdd(BagDel(b, {NormQ(e.q)}), NormQ(e.q)))
          ELSE BagDel(b, {NormQ(e.q)})
@@ -111,7 +136,7 @@ PostBig(e) ==
 Next == /\ l <= Len(Rec) /\ l' = l + 1
         /\ LET e == Rec[l] IN
              /\ b' = PostB(e)
-             /\ cfg' = IF e.ev = "Reset" THEN [isset |-> e.isset, graph |-> e.graph, cap |-> e.cap] ELSE cfg
+             /\ cfg' = IF e.ev = "Reset" THEN [isset |-> e.isset, graph |-> e.graph, cap |-> e.cap, asds |-> ("asds" \in DOMAIN e)] ELSE cfg
              /\ seen' = PostSeen(e)
              /\ big' = PostBig(e)
              /\ IF Ok(e) THEN TRUE ELSE PrintT(<<"MISMATCH", l, e.ev>>)
